@@ -51,7 +51,10 @@ pub const LABELS: [Label; 10] = [
 impl Label {
     /// does the reference store its target inline (no heap indirection)?
     pub fn inline(self) -> bool {
-        matches!(self, Label::Direct | Label::Tuple | Label::Array | Label::TypeArg | Label::Compact)
+        matches!(
+            self,
+            Label::Direct | Label::Tuple | Label::Array | Label::TypeArg | Label::Compact
+        )
     }
 }
 
@@ -81,7 +84,10 @@ impl GraphState {
                 &["g", "h"],
                 "P",
                 &["T"],
-                named(vec![("raw", Ty::Prim(Prim::U64)), ("m", Ty::Phantom(b(Ty::Param(0))))]),
+                named(vec![
+                    ("raw", Ty::Prim(Prim::U64)),
+                    ("m", Ty::Phantom(b(Ty::Param(0)))),
+                ]),
             ),
         ];
         for (i, k) in self.nodes.iter().enumerate() {
@@ -266,7 +272,8 @@ impl Driver for DGraph {
                 continue;
             }
             for l in &self.labels {
-                let mut targets: Vec<(usize, Option<NodeKind>)> = (0..s.nodes.len()).map(|t| (t, None)).collect();
+                let mut targets: Vec<(usize, Option<NodeKind>)> =
+                    (0..s.nodes.len()).map(|t| (t, None)).collect();
                 if s.nodes.len() < self.max_nodes {
                     for k in &self.kinds {
                         targets.push((s.nodes.len(), Some(*k)));
@@ -303,7 +310,13 @@ pub fn quick_graph(max_edges: usize) -> DGraph {
     DGraph {
         max_nodes: 3,
         max_edges,
-        kinds: vec![NodeKind::Struct, NodeKind::Enum, NodeKind::GenericStruct, NodeKind::Wrapper, NodeKind::EmptyEnum],
+        kinds: vec![
+            NodeKind::Struct,
+            NodeKind::Enum,
+            NodeKind::GenericStruct,
+            NodeKind::Wrapper,
+            NodeKind::EmptyEnum,
+        ],
         labels: LABELS.to_vec(),
     }
 }
